@@ -102,6 +102,10 @@ Step ==
                                 /\ UNCHANGED <<rel, run>>
        \* non-interference: a hostile datagram changes nothing in the abstract state of the well-behaved peers
        [] e.ev = "Hostile"   -> viol' = viol \cup C06Viol(e) /\ UNCHANGED <<rel, run, matched, recv, unavMay, unavMust, everUnav, deliv, frags, hbCnt, hbRange, handed, hlow, low, ackBase, ackCnt, nfCnt>>
+       \* a reply for writer e.w went to another address than the writer's (it was matched with exactly one unicast locator):
+       \* somebody else's datagram has redirected it
+       [] e.ev = "Misdirected" -> viol' = viol \cup {"C06_reply_for_a_writer_sent_to_an_address_named_by_another_peer"}
+                                  /\ UNCHANGED <<rel, run, matched, recv, unavMay, unavMust, everUnav, deliv, frags, hbCnt, hbRange, handed, hlow, low, ackBase, ackCnt, nfCnt>>
        [] e.ev \in {"HostileBegin", "RunDone", "TakeErr"} -> UNCHANGED <<absVars, rel, run>>
   /\ fn' = FnNext(Rec[l])
   /\ (viol' # viol /\ viol' # {}) =>
